@@ -201,6 +201,33 @@ def check_db_persist(ctx):
     finish(ctx, ob, bad, 'Database.persist/mode', lambda: native_power(ctx))
 
 
+def check_persist_wrappers(ctx):
+    """the transactional databases forward persist(mode) to the inner database with the caller's mode and return its result"""
+    for name, pat in (('OptimisticTxDatabase', r'^optimistic::<impl>::persist$'), ('SingleWriterTxDatabase', r'^single_writer::<impl>::persist$')):
+        ob = ctx.ob(f'wrapper-persist/{name}', f'{name}::persist(mode) = inner Database::persist(mode): same mode, result returned unchanged', [pat])
+        try:
+            ex, paths = ctx.run(pat, cache_key='c09.wrap.' + name, loop_bound=2, no_inline=[r'^db::<impl>::persist$|Database::persist$'])
+        except KeyError as e:
+            ob.status = 'undecided'; ob.detail = f'function not found: {e}'; continue
+        bad = []
+        for p in paths:
+            if p.status != 'returned':
+                continue
+            ob.reach += 1
+            calls = [e for e in p.events if e.kind == 'CALL' and e.args.get('callee', '').endswith('::persist')]
+            fr = p.st.frames[0]
+            mode = fr.locals[fr.fn.args[1]].val
+            if len(calls) != 1:
+                bad.append((p, f'{len(calls)} calls to the inner persist')); continue
+            m2 = calls[0].args['args'][1]
+            same = (m2 is mode) or (isinstance(m2, EnumV) and isinstance(mode, EnumV) and str(m2.disc) == str(mode.disc))
+            if not same:
+                bad.append((p, f'the inner database is persisted with another mode ({m2}) than the caller asked for')); continue
+            if calls[0].res is not None and p.ret is not calls[0].res and not (isinstance(p.ret, EnumV) and isinstance(calls[0].res, EnumV) and str(p.ret.disc) == str(calls[0].res.disc)):
+                bad.append((p, 'the result of the inner persist is not returned')); continue
+        finish(ctx, ob, bad, f'{name}.persist/not-forwarded', lambda: native_power_wrappers(ctx))
+
+
 def check_batch_durability(ctx):
     ob = ctx.ob('batch/durability', 'WriteBatch::commit with durability Some(mode): persisted with that mode after the append, before returning Ok', [C.WRITERS['batch']])
     bad = []
@@ -398,6 +425,17 @@ def native_power(ctx, extra=None):
     return last
 
 
+def native_power_wrappers(ctx):
+    last = (False, None, 'not run')
+    for kind in ('opt', 'single'):
+        for i, st in enumerate((['w', 'w', 'p:syncdata', 'x', 'w', 'p:syncall', 'x'], ['w', 'p:buffer', 'x', 'w', 'p:syncall', 'x'])):
+            r = crashimg.run_crash_workload(ctx, st, f'power-{kind}-{i}', manual=1, power_loss=True, kind=kind)
+            if r[0]:
+                return r
+            last = r
+    return last
+
+
 def native_proc(ctx):
     last = (False, None, 'not run')
     for i, (st, manual) in enumerate(((['w', 'x', 'w', 'x', 'b', 'x'], 0), (['w', 'p:buffer', 'x', 'w', 'x', 'p:buffer', 'x'], 1), (['b', 'x', 'w', 'x'], 0))):
@@ -419,6 +457,7 @@ def run(ctx):
     check_rotate(ctx)
     check_db_persist(ctx)
     check_batch_durability(ctx)
+    check_persist_wrappers(ctx)
     validate_translator(ctx)
     check_auto_persist(ctx)
     check_cursor_model(ctx, recs)
@@ -428,6 +467,7 @@ def run(ctx):
 
 
 MUTANTS = [
+    {'name': 'optimistic database persist always uses Buffer', 'edits': [('src/tx/optimistic/mod.rs', "        self.inner.persist(mode)", "        let _ = mode;\n        self.inner.persist(PersistMode::Buffer)")]},
     {'name': 'SyncData arm returns Ok without syncing', 'edits': [('src/journal/writer.rs', """            PersistMode::SyncData => self.file.get_mut().sync_data().inspect_err(|e| {
                 log::error!(
                     "Failed to fsyncdata journal file at {}: {e:?}",
